@@ -409,7 +409,7 @@ def run(ck):
   exhaustive_decode(ck, quick)
   check_cksum(ck, 150 if quick else 3000)
   if quick: check_programs(ck, 20, 2, [25, 50, 80, 120], 4000, nfar=3, far_ncfg=1, nalias=4, nxcel=4)
-  else: check_programs(ck, 380, 2, [20, 40, 60, 90, 140, 200], 6000, nfar=40, far_ncfg=2, nalias=40, nxcel=40)
+  else: check_programs(ck, 300, 2, [20, 40, 60, 90, 140, 200], 6000, nfar=40, far_ncfg=2, nalias=40, nxcel=40)
   c20_pipe.run(ck)
 
 def replay(ck, data):
